@@ -195,6 +195,22 @@ class P(Prop):
         ("TracklibVerif.Props.C03", "TV.C03.printZone_inj", "printZone() is Z exactly for zone 0 and distinct zones -24..+24 print differently"),
         ("TracklibVerif.Props.C03", "TV.C03.cmpO_inst", "operands of any class (ObsTime or a class derived from it, on either side): < > == <= >= != on well-formed stamps are the order of the epoch milliseconds; no class is read"),
         ("TracklibVerif.Props.C03", "TV.C03.cmpO_other", "an operand that is not a timestamp: == False, != True, the four order operators raise AttributeError, whatever the stamp"),
+        ("TracklibVerif.Props.C03Before1970", "TV.C03.readUnixG_before1970", "before 1970 (outside the statement): readUnixTime(x), x <= 0, run operation for operation in exact arithmetic with int() toward zero, = year 1970, month 1, day 1 - n div 86400 and the NEGATED hour/minute/second/millisecond of -x = n + f"),
+        ("TracklibVerif.Props.C03Before1970", "TV.C03.readUnixG_before1970_fields", "that stamp: day <= 1, hour -23..0, minute and second -59..0, millisecond -999..0"),
+        ("TracklibVerif.Props.C03Before1970", "TV.C03.readUnixG_before1970_instant", "x <= toAbsTime(readUnixTime(x)) < x + 1/1000 for x <= 0: the instant is kept to within a millisecond, rounded toward zero"),
+        ("TracklibVerif.Props.C03Before1970", "TV.C03.readUnixG_before1970_illFormed", "the domain boundary: for x <= -1/1000 the stamp returned has day < 1 or a negative hour/minute/second/millisecond; for -1/1000 < x <= 0 it is the epoch stamp ObsTime()"),
+        ("TracklibVerif.Props.C03Before1970", "TV.C03.toAbsG_readUnixG_before1970", "on a whole number of milliseconds before 1970 toAbsTime(readUnixTime(-k/1000)) = -k/1000 exactly"),
+        ("TracklibVerif.Props.C03Before1970", "TV.C03.readUnixG_negMs", "readUnixTime(-k/1000), k whole, = negStamp (k div 1000) (-(k mod 1000)): the explicit stamp on a whole number of milliseconds before 1970"),
+        ("TracklibVerif.Props.C03Before1970", "TV.C03.addSecG_before1970_back", "addSec(k), k whole, from a well-formed stamp to 1970 or before: toAbsTime() of the (ill-formed) result is exactly toAbsTime()+k, and addSec(-k) on it returns the stamp one started from"),
+        ("TracklibVerif.Props.C03Before1970", "TV.C03.convertToZoneG_before1970_back", "convertToZone to a target at or before 1970 and back to the zone one came from returns the stamp and label one started from"),
+        ("TracklibVerif.Props.C03Before1970", "TV.C03.addG_before1970_spec", "readUnixTime(toAbsTime() + a*c) for ANY scalar amount and stamp when that instant is 1970 or before: the stamp of readUnixG_before1970, toAbsTime() of it within one millisecond of the instant asked for, toward zero"),
+        ("TracklibVerif.Props.C03Before1970", "TV.C03.addSecG_before1970_spec", "addSec(a), any scalar a (fractional included), leading to 1970 or before: that stamp, within 1 ms toward zero"),
+        ("TracklibVerif.Props.C03Before1970", "TV.C03.addMinHourDayG_before1970_spec", "the same for addMin (a*60), addHour (a*3600), addDay (a*86400)"),
+        ("TracklibVerif.Props.C03Before1970", "TV.C03.addSecG_total", "addSec(k), k whole, from a well-formed stamp with NO domain hypothesis: shiftMsZ t (1000k) - the integer model's stamp when the target is not before 1970, the negated decomposition when it is"),
+        ("TracklibVerif.Props.C03Before1970", "TV.C03.convertToZoneG_total", "convertToZone(z) on a well-formed stamp labelled z0, whatever the target: shiftMsZ t (3 600 000 (z - z0)) labelled z (Z3 without 'not before 1970')"),
+        ("TracklibVerif.Props.C03Before1970", "TV.C03.convertToTimeZone_total", "Track.convertToTimeZone(z) on any track of well-formed stamps, targets on both sides of 1970: stamp by stamp shiftMsZ (Z8 without its domain hypothesis)"),
+        ("TracklibVerif.Props.C03Before1970", "TV.C03.addSeconds_total", "Track.addSeconds(k), k whole, on any track of well-formed stamps, targets on both sides of 1970: stamp by stamp shiftMsZ, zone 0"),
+        ("TracklibVerif.Props.C03Before1970", "TV.C03.toAbs_year_before1970", "toAbsTime() of a stamp whose year is before 1970: range(1970, year) is empty, the years contribute nothing (1969-12-31 23:59:59 -> +31 535 999)"),
     ]
     partial = []
     open_statements = ["IEEE rounding is outside the theorems (ordered field, exact int()): the two roundings of toAbsTime() (ms/1000.0 and the sum) make a stamp with a non-zero "
@@ -202,9 +218,11 @@ class P(Prop):
                        "property's millisecond and are covered by the bit-exact correspondence of the same definitions instantiated at Float, not by a theorem",
                        "object identity is a statement about the interpreter of programs (every call that returns a stamp appends a new object): that the Python calls behave like that "
                        "interpreter is the correspondence of the `prog` stream (outputs, final state of every object, `is`), not a theorem about CPython",
-                       "convertToZone / Track.convertToTimeZone / Track.addSeconds theorems are for exact arithmetic and targets not before 1970; before 1970 and IEEE rounding: correspondence at Float only. "
+                       "convertToZone / Track.convertToTimeZone / Track.addSeconds theorems that state the property are for exact arithmetic and targets not before 1970; IEEE rounding: correspondence at Float only. "
                        "Before 1970 is outside the statement (seconds since 1970): this tree returns negative fields for a negative number of seconds and counts a year before 1970 as 1970 in toAbsTime(); "
-                       "the models mirror that, no theorem and no oracle clause speaks about it (a tree that handled such dates correctly would only break the correspondence). "
+                       "the models mirror that and Props/C03Before1970.lean PROVES what is returned there in exact arithmetic (which stamp, that it is ill formed from one millisecond before 1970 on, that the instant is kept "
+                       "to within a millisecond toward zero, that addSec / convertToZone there and back is the identity; addSec(k whole) / convertToZone / Track.convertToTimeZone / Track.addSeconds as total functions on well-formed stamps, both sides of 1970); no oracle clause speaks about it (a tree that handled such dates correctly would only break the "
+                       "correspondence). Fractional amounts of addSec..addDay leading before 1970: the 1 ms bracket toward zero (addSecG_before1970_spec). Still open there: IEEE rounding before 1970 (Float correspondence only). "
                        "TrackCollection.convertToTimeZone (calls Track.convertToZone, which does not exist) and Track.roundTimestamps (calls ObsTime.round, which does not exist) raise AttributeError on every input: not modelled, not generated"]
     modelled = ("tracklib/core/obs_time.py: ObsTime.readUnixTime on a float argument, operation for operation (readUnixG: year loop on `elapsed - sec` with the integer accumulator, "
                 "month loop, int(e/86400), int(e/3600), int(e/60), int(e), ms = int(frac*1000)) and on integers (readUnixSec/readUnixMs); toAbsTime (integer `seconds`, then "
@@ -214,6 +232,7 @@ class P(Prop):
                 "format is put back), getDayOfWeek, copy, attribute assignment; core/track.py Track.setTimeZone / getTimeZone / convertToTimeZone / addSeconds on a track that "
                 "refers to the timestamp objects themselves; programs of such statements over a store in which every call that returns a stamp appends a new object "
                 "(driver command `prog`; the harness compares every output, the final state of every object, which objects are identical, which objects the track holds). "
+                "Before 1970 (outside the statement) the same definitions are followed operation for operation by Lemmas/ObsTimeNeg.lean (TruncNeg = int() toward zero, negStamp, shiftMsZ) and Props/C03Before1970.lean. "
                 "The operand handling of the comparison operators (Model/ObsTimeOperand.lean, driver command `cmpo`): the isinstance guard of __eq__ (any class derived from ObsTime "
                 "passes; None, numbers, strings, tuples of fields do not), __ne__ = not (time == self) with the operands changing sides, the AttributeError of < > <= >= on a non-timestamp. "
                 "The string constructor / readTimestamp / __str__ are the C13 model (driver command C13.time), used here for the `ctor` stream")
